@@ -22,7 +22,7 @@ VERIF = Path(__file__).resolve().parent.parent
 LEAN = VERIF / "lean"
 REPO = Path(os.environ.get("VERIF_REPO", "/repo"))
 DRIVER = LEAN / ".lake" / "build" / "bin" / "pyabel_drv"
-EVIDENCE = VERIF / "evidence"
+EVIDENCE = Path(os.environ["VERIF_EVIDENCE_DIR"]) if os.environ.get("VERIF_EVIDENCE_DIR") else VERIF / "evidence"
 REPLAYS = VERIF / "replays"
 CORPUS = VERIF / "corpus"
 FINDINGS_FILE = VERIF / "known_findings.json"
